@@ -3,6 +3,7 @@ from __future__ import annotations
 
 import itertools
 import random
+import re
 import warnings
 
 from tools.lib import common as C
@@ -44,7 +45,7 @@ def plan_cases(run, rng, n):
         kw = {}
         if fill is not None:
             kw = {"fill_value": fill, "expected_groups": np.arange(ng + (1 if rng.random() < 0.5 else 0))}
-        outkw = rng.choice([None, None, None, "float64", "float32"]) if func not in ("any", "all", "count", "argmax", "nanargmin") and dtype != "bool" else None
+        outkw = rng.choice([None, None, None, "float64", "float32", "int64", "int32"]) if func not in ("any", "all", "count", "argmax", "nanargmin") and dtype != "bool" else None
         if outkw:
             kw["dtype"] = outkw
         ref = None
@@ -115,6 +116,13 @@ def run(run: C.Run):
         run.extra["offending_table_rows"] = offending_rows()
     run.cov["exhaustive"] = True
     plan_cases(run, rng, 2500 if run.tier == "thorough" else 320)
+    rows = re.findall(r"\((F_\w+), (D\w+), (None|Some D\w+), (Fill\w+),\s*(ODtype D\w+|OExc \w+)", run.extra.get("offending_table_rows") or "")
+    for f, d, kw, fill, out in rows[:4]:
+        # a row of the table IS a concrete input: the real eager call was made with exactly these arguments
+        run.violation({"property": "C11", "kind": "result dtype does not follow the NumPy conventions",
+                       "func": f[2:], "input_dtype": d, "dtype_kwarg": kw, "fill_value_kind": fill, "observed": out,
+                       "how_to_run": "groupby_reduce(np.array([1,2,3,4], dtype=input_dtype), [0,0,1,1], func=func, engine='numpy', dtype=dtype_kwarg, "
+                                     "fill_value={FillNone: None, FillInt: 0, FillNaN: nan}[kind], expected_groups=[0,1] if fill given)"}, tag="row")
     if any(not o[1] for o in run.obligations) and not run.violations:
         run.violation({"property": "C11", "kind": "proof obligation no longer checks: the dtype table regenerated from the code "
                        "no longer satisfies the NumPy conventions", "failed": P.failed_obligations(run),
